@@ -7,6 +7,14 @@ ALL = ["C%02d" % i for i in range(1, 21)]
 
 # id -> (engine, level, text, note, technique, design_ref)
 CHECKS = {
+ "C02": ("range+rangeconc", "exploration",
+   "256 (quick) / 3072 (thorough) sequential request histories through the real HandleMsg4 into the range plugin on a real sqlite file, with restarts on the same file, every reply decided by a lease model (in range, injective, sticky, lease time, drop iff full); plus 160 / 1920 concurrent burst histories (one goroutine per datagram, pooled buffers, -race) checked for linearizability against the same model with porcupine.",
+   "no lease expiry exists in the code, so stickiness is over the whole history; pools above 4097 addresses are not exhausted; schedules are those the Go scheduler produced.",
+   "online reference-model monitor + porcupine linearizability check + Go race detector", "4 C02"),
+ "C03": ("range+rangekill", "fault_enumeration",
+   "every prefix of every request history is a crash point: after every reply the database (and journal) is copied and reopened by a fresh plugin instance, rows are compared with the model (none lost/changed/duplicated, expiry lower bound) and clients are probed; a child process is SIGKILLed after acknowledged replies or microseconds into the next request and the database it left is reopened; thorough repeats the workload under AddressSanitizer (cgo sqlite path).",
+   "process kills and file copies, not power loss; expiry is compared with a one-sided bracket (t_before_call + lease - 1 s).",
+   "fault enumeration over crash points (copy+reopen after every reply, SIGKILL of a child at acknowledged points) with a reference-model oracle; ASan in the thorough tier", "4 C03"),
  "C04": ("alloc+allocconc", "exploration",
    "4000 (quick) / 64000 (thorough) sequential Allocate/Free histories of 20-200 operations on generated IPv4 and IPv6 pools, every result decided online by a set-of-outstanding-blocks model, ending in a drain audit; plus 400 / 6400 concurrent histories (2-16 goroutines, 1-16 blocks, built -race) checked for linearizability with porcupine. Held on those executions.",
    "math/big address arithmetic is the reference; concurrency coverage is what the Go scheduler produced (overlap counts in the evidence); porcupine timeouts are inconclusive.",
@@ -23,6 +31,14 @@ CHECKS = {
    "Same histories; every Allocate whose hint lies in a block the model knows to be free (first/last/word-boundary blocks, 4- and 16-byte IPv4 forms, any address inside an IPv6 block, hint lengths >= and <= the allocation length) must return exactly that block.",
    "hints carrying a mask that is not 128 bits are only checked for C05.",
    "online reference-model monitor over generated hints", "4 C04-C07"),
+ "C08": ("prefix+prefixconc", "exploration",
+   "512 (quick) / 6144 (thorough) message histories (1-6 clients, every DUID kind, 0-3 IA_PD x 0-3 hints of every class, 0-2 relay layers, retransmissions) as wire bytes through HandleMsg6 into the prefix plugin; a per-client prefix model decides every reply (IA_PD count and IAIDs, prefix or NoPrefixAvail, in pool, aligned, length, lifetimes, disjoint across clients); concurrent bursts are checked with porcupine under -race.",
+   "lifetimes are checked as 0 < preferred <= valid <= 1h; which free block is chosen is never asserted.",
+   "online reference-model monitor + porcupine linearizability check + Go race detector", "4 C08-C09"),
+ "C09": ("prefix+prefixconc", "exploration",
+   "same histories; oracle: an IA_PD asking for exactly a held prefix gets it, a hint-less IA_PD (no IAPrefix or ::/0) gets every held prefix back, lifetimes do not shrink below what remained (one-sided bracket), and at the end fresh clients drain the pool: exactly N - |delegated blocks| must be free (retransmissions consumed nothing, nothing delegated was forgotten).",
+   "'for as long as the server runs' = the length of the history (no expiry in the code); length-only hints are outside the statement.",
+   "online reference-model monitor with conservation audit + porcupine linearizability check", "4 C08-C09"),
  "C20": ("arith", "exploration",
    "2x10^6 (quick) / 3.8x10^7 (thorough) generated evaluations of Offset (both argument orders), AddPrefixes and the inverse law, each decided by a math/big reference; all p in 0..128, carry/borrow and overflow classes counted in the evidence. Sampling of a 2^320 input space: 'held on what was explored'.",
    "math/big is the definition of the exact result; inputs are 16-byte addresses.",
